@@ -40,7 +40,7 @@ def gen_unit_spec(r, name, is_async, max_pre=3, max_post=2, max_snap=2, forms=Tr
     return u
 
 
-def gen_world(r, is_async, nfuncs=(1, 2), with_class=0.6, forms=True, async_methods=None, max_invs=2, mixed=False, subclass=0.0):
+def gen_world(r, is_async, nfuncs=(1, 2), with_class=0.6, forms=True, async_methods=None, max_invs=2, mixed=False, subclass=0.0, setattr_invs=False):
     w = {"funcs": [], "classes": [], "objects": []}
     for i in range(r.randint(*nfuncs)):
         fa = is_async and not (mixed and r.random() < 0.4)
@@ -51,7 +51,7 @@ def gen_world(r, is_async, nfuncs=(1, 2), with_class=0.6, forms=True, async_meth
         for i in range(r.randint(1, 2)):
             cs["methods"].append(gen_unit_spec(r, "m%d" % i, am, max_pre=2, max_post=1, max_snap=1, forms=forms, kind="method"))
         for i in range(r.randint(0, max_invs)):
-            inv = {"check_on": r.choice(["CALL", "CALL", "ALL"])}
+            inv = {"check_on": r.choice(["CALL", "CALL", "ALL", "SETATTR"] if setattr_invs else ["CALL", "CALL", "ALL"])}
             e = r.choice(ERROR_FORMS) if forms else "default"
             if e != "default":
                 inv["error"] = e
@@ -74,7 +74,7 @@ def gen_world(r, is_async, nfuncs=(1, 2), with_class=0.6, forms=True, async_meth
             if r.random() < 0.4:
                 k1["methods"].append(gen_unit_spec(r, "m9", am, max_pre=1, max_post=1, max_snap=0, forms=forms, kind="method"))
             for i in range(r.randint(0, 1)):
-                k1["invs"].append({"check_on": r.choice(["CALL", "ALL"])})
+                k1["invs"].append({"check_on": r.choice(["CALL", "ALL", "SETATTR"] if setattr_invs else ["CALL", "ALL"])})
             w["classes"].append(k1)
             o = {"name": "o9", "cls": "K1"}
             w["objects"].append(o)
